@@ -100,6 +100,7 @@ class Sched:
         self.tseq = 0
         self.pending_exc = None
         self.deaths = []           # threads whose run() raised
+        self.busy_loops = []       # (thread name, innermost Pyro5 frame) noted by the monitor when it breaks a busy loop
         self.trace = None          # optional list of readable events (replay / debugging)
         self.line_hits = 0
         self.wall_steps = []        # [[virtual seconds since start, step forward in seconds], ...] applied to time() only
